@@ -226,6 +226,23 @@ impl Handler<Call<M, u64>> for TA {
     }
 }
 
+/// A task that only makes the dispatcher wake one more waiting worker (its start fails at once, so
+/// no actor ever exists). Used while a worker THREAD is parked in an actor value's Drop: the
+/// dispatcher's queue is shared, a new task wakes only the worker that has been waiting longest,
+/// and that may be the parked one; each further task wakes the next one, and any worker that is
+/// awake takes everything that is queued.
+pub struct Kick;
+
+impl Actor for Kick {
+    type Arguments = ();
+    type Error = u32;
+    type State = ();
+
+    async fn pre_start(&self, _myself: &Mailbox<Self>, (): ()) -> Result<(), u32> {
+        Err(0)
+    }
+}
+
 /// The supervisor: logs every event and replaces a terminated child under the same name.
 pub struct Sup {
     w: Arc<World>,
